@@ -1040,6 +1040,7 @@ func (t *trans) baseApp(sd *specDef, fp []string, plain []string, x *cCall, ret 
 	if g == "true" {
 		return baseAppTerm, true
 	}
+	c.needWF = true // the guards compare allocation times of heap values
 	// by the lemma the two applications are equal whenever the guard holds, so the conditional below is
 	// equivalent to the application over the current heap (which is unfolded as well: the guard may fail)
 	nowT := *t
